@@ -427,7 +427,10 @@ class AcctSim(object):
         old_liq = L.liq_side(i)
         # (stamp_back_s: a late print - the quote carries a stamp older than the executor's clock, e.g. older than the
         #  discontinuation that was processed before it)
-        self.ex.process_EventNBBO(EventNBBO(self.t - timedelta(seconds=op.get("stamp_back_s", 0)), self.contracts[i], bid, ask))
+        sizes = (op["bsz"], op["asz"]) if "bsz" in op else ()
+        if sizes:
+            self.fault("quote_with_finite_displayed_sizes")
+        self.ex.process_EventNBBO(EventNBBO(self.t - timedelta(seconds=op.get("stamp_back_s", 0)), self.contracts[i], bid, ask, *sizes))
         if op.get("stamp_back_s"):
             self.fault("quote_with_an_older_stamp")
         if L.alive[i]:
